@@ -1119,3 +1119,149 @@ def gen_goodbye_repeat_history(rng, hid, cfg=None, auto=None, ipcheck_off=True):
         steps.append({"t": T + ph + 1500, "d": 0, "dgrams": [queries_for(rng, s if not auto else dict(s, ips=ADDRS[cfg][0]), cfg)]})
     return {"id": hid, "t0": T0, "daemons": [{"seed": seed, "ifaces": IFCFGS[cfg]}], "link": "none", "steps": steps,
             "meta": {"family": "gbrepeat", "cfg": cfg, "auto": auto, "ph": ph}}
+
+
+# --------------------------------------------------------------------------- model-free family: non-ASCII names
+# The Coq model folds ASCII letters only (Base/Bytes.v), the daemon keys its service map with the
+# Unicode str::to_lowercase().  Names with non-ASCII CASED letters are therefore kept out of the
+# modelled histories; this family registers such names (upper-case non-ASCII letters, and lower-case
+# ones as control) and judges the trace directly, in exactly the registered spelling, on a
+# timer-exact schedule: three probes 250 ms apart, two announcements one second apart carrying the
+# SRV and TXT of the registered name, the first within 1 s (+ slack) of the registration; a
+# question for the instance is answered; unregister under the registered spelling answers OK, sends
+# a goodbye and its repeat 120 ms later, and questions afterwards stay unanswered.  The expectation
+# is computed here; the model line is the constant "NA ok".
+
+NA_UPPER = ["ÉCOLE Ñandú", "Çà et LÀ", "ÄÖÜ printer", "Ωmega Σ", "ПРИНТЕР 7", "Übung Ж", "École"]
+NA_LOWER = ["école ñandú", "çà et là", "принтер 7", "straße", "日本 プリンタ"]
+NA_SLACK = 50
+
+
+def is_na(case_line):
+    return case_line.startswith('{"id":"na-') or case_line.startswith('sim {"id":"na-')
+
+
+def gen_nonascii_history(rng, hid, unregister=False):
+    cfg = rng.choice(["v4", "v4", "dual", "v6"])
+    seed = rng.choice(list(FIRST_JITTER))
+    names = [rng.choice(NA_UPPER)]
+    if rng.random() < 0.6:
+        names.append(rng.choice(NA_LOWER + NA_UPPER) + " 2")
+    if rng.random() < 0.3:
+        names.append("plain ascii 3")
+    svcs = []
+    for k, n in enumerate(names):
+        addrs = ADDRS[cfg][:2] if cfg == "dual" else ADDRS[cfg][:1]
+        svcs.append(svc(rng.choice(["_t._tcp.local.", "_u._udp.local."]), n, "nah%d.local." % k,
+                        "auto" if rng.random() < 0.3 else ",".join(addrs), 8000 + k, [["6b", "76"]]))
+    steps = [{"t": T0, "d": 0, "calls": [{"op": "monitor", "ch": "m"}, {"op": "set_ip_check_interval", "secs": 0}]
+              + [{"op": "register", "svc": x} for x in svcs]},
+             {"run_until": T0 + 3000}]
+    t = T0 + 3000
+    ifidx, v4 = some_if(rng, cfg)
+    for x in svcs:
+        t += 10
+        fl = name_labels(fullname_of(x))
+        steps.append({"t": t, "d": 0, "dgrams": [q_dgram(None, ifidx, v4, [(fl, rng.choice([33, 255, 16]))])]})
+    if unregister:
+        t += 100
+        steps.append({"t": t, "d": 0, "calls": [{"op": "unregister", "name": fullname_of(svcs[0]), "ch": "u1"}]})
+        steps.append({"run_until": t + 500})
+        t += 510
+        fl = name_labels(fullname_of(svcs[0]))
+        steps.append({"t": t, "d": 0, "dgrams": [q_dgram(None, ifidx, v4, [(fl, 33)])]})
+        steps.append({"t": t + 10, "d": 0, "calls": [{"op": "unregister", "name": fullname_of(svcs[0]), "ch": "u2"}]})
+    return {"id": hid, "t0": T0, "daemons": [{"seed": seed, "ifaces": IFCFGS[cfg]}], "link": "none", "steps": steps}
+
+
+def _na_packets(t):
+    out = []
+    for p in t.get("sent", []):
+        m = dnsgen.parse_packet(bytes.fromhex(p["hex"]))
+        if m is not None:
+            out.append((p, m))
+    return out
+
+
+def project_na(case_line, raw):
+    """'NA ok' or 'NA bad <reasons>' (liveness of registration / unregistration judged on the trace)."""
+    h = history_of(case_line)
+    try:
+        its, _ = iterations(raw)
+    except Exception:
+        return "NA harness-error"
+    bad = []
+    regs = [c["svc"] for c in h["steps"][0]["calls"] if c.get("op") == "register"]
+    steps = list(replay_steps(h, its))
+    unreg_t = {}
+    for rec, calls, dgs in steps:
+        for k, c in enumerate(calls or []):
+            if c.get("op") == "unregister":
+                ch = c.get("ch")
+                unreg_t.setdefault(c["name"], []).append((rec["now"], ch))
+    for x in regs:
+        full = fullname_of(x).encode()
+        if not full.endswith(b"."):
+            full += b"."
+        tag = hx(full)[:24]
+        first_unreg = min([t for (t, _) in unreg_t.get(fullname_of(x), [])], default=None)
+        probes, anns, gbs, answers_after = [], [], [], []
+        for t in its:
+            hit_p = hit_a = hit_g = False
+            for p, m in _na_packets(t):
+                if not (m["flags"] & 0x8000):
+                    if any(dnsgen.dotted(q[0]) == full for q in m["q"]) and any(dnsgen.dotted(r["name"]) == full for r in m["ns"]):
+                        hit_p = True
+                else:
+                    recs = [r for r in m["an"] if dnsgen.dotted(r["name"]) == full]
+                    tys = set(r["type"] for r in recs)
+                    if recs and all(r["ttl"] == 0 for r in recs):
+                        hit_g = True
+                    elif {33, 16} <= tys and not m["q"] and not t.get("dgrams_in"):
+                        hit_a = True
+            if hit_p:
+                probes.append(t["now"])
+            if hit_a:
+                anns.append(t["now"])
+            if hit_g:
+                gbs.append(t["now"])
+        # announcements = unsolicited responses: exclude iterations that answered an injected question
+        q_iters = set(rec["now"] for rec, calls, dgs in steps if dgs)
+        anns = [a for a in anns if a not in q_iters]
+        if len(probes) < 3 or probes[1] - probes[0] != 250 or probes[2] - probes[1] != 250 or probes[0] > T0 + 250:
+            bad.append("%s:probes=%s" % (tag, ",".join(str(p - T0) for p in probes[:5])))
+        elif len(anns) < 2 or anns[0] != probes[2] + 250 or anns[1] != anns[0] + 1000 or anns[0] > T0 + 1000 + NA_SLACK:
+            bad.append("%s:announcements=%s" % (tag, ",".join(str(a - T0) for a in anns[:4])))
+        # questions for the instance
+        for rec, calls, dgs in steps:
+            for g in dgs or []:
+                q = dnsgen.parse_packet(bytes.fromhex(g["hex"]))
+                if not q or (q["flags"] & 0x8000) or not q["q"] or dnsgen.dotted(q["q"][0][0]) != full:
+                    continue
+                answered = any((m["flags"] & 0x8000) and any(dnsgen.dotted(r["name"]) == full and r["ttl"] > 0
+                                                                for r in m["an"]) for p, m in _na_packets(rec))
+                if first_unreg is None or rec["now"] < first_unreg:
+                    if not answered:
+                        bad.append("%s:unanswered@%d" % (tag, rec["now"] - T0))
+                elif answered:
+                    bad.append("%s:answered-after-unregister@%d" % (tag, rec["now"] - T0))
+        if first_unreg is not None:
+            if not gbs or gbs[0] != first_unreg:
+                bad.append("%s:no-goodbye" % tag)
+            elif len(gbs) != 2 or gbs[1] != gbs[0] + 120:
+                bad.append("%s:goodbyes=%s" % (tag, ",".join(str(g - T0) for g in gbs[:4])))
+    # unregister replies: first OK, second NotFound
+    replies = {}
+    for t in its:
+        ev = t.get("events") or {}
+        for ch, evs in (ev.items() if isinstance(ev, dict) else []):
+            for e in evs:
+                if e.get("e") in ("OK", "NotFound"):
+                    replies.setdefault(ch, []).append(e.get("e"))
+    for name, lst in unreg_t.items():
+        for k, (t, ch) in enumerate(sorted(lst)):
+            want = "OK" if k == 0 else "NotFound"
+            got = replies.get(ch)
+            if got != [want]:
+                bad.append("unregister-%s=%s(want %s)" % (ch, got, want))
+    return "NA ok" if not bad else "NA bad " + " ".join(bad)
